@@ -180,3 +180,28 @@ def settled_on_stored_record_instances(ctx, em, rule):
                      "%d remain-margin computations; %s" % (calls, bad or "each on the stored record's own margin, checkpoint and size"))
     if n == 0:
         ctx.lost(rule, "remain-margin computations on the chain steps")
+
+
+def liquidator_is_sender_instance(ctx, em, rule):
+    """the liquidator a liquidation reply pays is the sender of this transaction: the Liquidate handler stores
+    info.sender in the in-flight liquidator slot unconditionally on every success path (shared by C03 / C06)"""
+    st = em.exec_step("Liquidate")
+    if st is None:
+        ctx.lost(rule, "Liquidate")
+        return
+    bad = None
+    n_p = 0
+    for q in st.ok_paths():
+        n_p += 1
+        good = False
+        for wr in st.writes(q):
+            if wr["item"] != "margined_engine:tmp-liquidator":
+                continue
+            if wr["kind"] == "write" and wr["must"] and wr["value"] is not None and st.c(wr["value"]) == st.sender:
+                good = True
+            elif wr["kind"] == "write":
+                bad = bad or ("the slot is written %s with %s" % ("conditionally" if not wr["must"] else "unconditionally", sym.show(st.c(wr["value"]), 5) if wr["value"] is not None else "?"))
+        if not good:
+            bad = bad or "a success path does not (unconditionally) store info.sender as the liquidator"
+    ctx.inst(rule, "liquidator-is-sender:%s" % st.label, bad is None and n_p > 0, st.fn.where(),
+             bad or "%d success paths, each stores info.sender into the liquidator slot unconditionally" % n_p)
